@@ -1290,22 +1290,50 @@ func (e *RaceEngine) onlyFreshElemStores(k FieldKey) bool {
 	return ok && n > 0
 }
 
-func returnsFresh(fn *ssa.Function) bool {
-	if fn.Blocks == nil {
+func returnsFresh(fn *ssa.Function) bool { return returnsFreshD(fn, 0) }
+
+// returnsFreshD: every return hands out an object made for this call: an allocation of the
+// function itself, nil, or what another such function returned (a constructor behind a helper).
+func returnsFreshD(fn *ssa.Function, depth int) bool {
+	if fn == nil || fn.Blocks == nil || depth > 3 {
 		return false
 	}
 	ok := true
 	n := 0
+	var fresh func(v ssa.Value, d int) bool
+	fresh = func(v ssa.Value, d int) bool {
+		if d > 4 {
+			return false
+		}
+		switch x := v.(type) {
+		case *ssa.Alloc:
+			return true
+		case *ssa.Const:
+			return x.Value == nil
+		case *ssa.Call:
+			return !x.Call.IsInvoke() && returnsFreshD(x.Call.StaticCallee(), depth+1)
+		case *ssa.Extract:
+			if call, isCall := x.Tuple.(*ssa.Call); isCall && x.Index == 0 {
+				return !call.Call.IsInvoke() && returnsFreshD(call.Call.StaticCallee(), depth+1)
+			}
+		case *ssa.Phi:
+			for _, e := range x.Edges {
+				if !fresh(e, d+1) {
+					return false
+				}
+			}
+			return len(x.Edges) > 0
+		}
+		return false
+	}
 	Instrs(fn, func(in ssa.Instruction) {
 		ret, isRet := in.(*ssa.Return)
-		if !isRet || len(ret.Results) == 0 {
+		if !isRet || len(ret.Results) == 0 || ret.Block() == fn.Recover {
 			return
 		}
 		n++
-		if _, isAlloc := ret.Results[0].(*ssa.Alloc); !isAlloc {
-			if c, isC := ret.Results[0].(*ssa.Const); !isC || c.Value != nil {
-				ok = false
-			}
+		if !fresh(ret.Results[0], 0) {
+			ok = false
 		}
 	})
 	return ok && n > 0
